@@ -100,3 +100,229 @@ Proof.
   eexists. split; [vm_compute; reflexivity|]. split; [vm_compute; reflexivity|].
   split; [vm_compute; reflexivity|]. split; vm_compute; reflexivity.
 Qed.
+
+(* ======================================================================================
+   Reader / ConsumerGroup / Transport half of C09.
+   Model: Model/Lifecycle.v — the kafka.Reader shell of /repo/reader.go (closed, stctx/stop, done,
+   join, msgs, commits, runError, the run(cg) loop, subscribe/unsubscribe, commitLoop, the partition
+   reader goroutines of start, readLag), the ConsumerGroup.run goroutine and the functions started on
+   its generations (/repo/consumergroup.go), and the two context-aware waits of a Transport round
+   trip (/repo/transport.go connPool.roundTrip, async.await).  A run is
+   [run step (init c) ls = Some s] for an arbitrary label sequence: every interleaving of any
+   number of Close calls with in-flight and newly arriving FetchMessage / ReadMessage /
+   CommitMessages calls, rebalances in progress, and every outcome (answer, error, time-out,
+   refused dial) of every network exchange.  From here on the names step, init, state, label, …
+   are those of Model/Lifecycle.v.
+
+   Classes of labels:
+     is_env l     a user decision: a new call, a context ending, a new Close call, SetOffset
+     is_clock l   the firing of a PERIODIC ticker (heartbeat, CommitInterval, ReadLagInterval)
+     is_race s l  a select takes another ready branch although its cancellation branch
+                  (<-ctx.Done(), <-r.stctx.Done(), <-cg.done, <-gen.done) is ready too
+     progress s l = none of the three: a step a goroutine, the broker or a one-shot timer takes
+
+   FINDINGS of this half (each a [_refuted] theorem below, replayed on the implementation by
+   harness/cmd/c09r, reported by checks/c09.py):
+     C09-commit-after-close-enqueues   CommitMessages after Close returned can put its request into
+        r.commits (the select has no priority for <-r.stctx.Done()); with CommitInterval = 0 the
+        call then waits for an answer nobody will send until ITS context ends (forever with
+        context.Background()); with CommitInterval > 0 it returns nil for a commit that is never sent.
+     C09-fetch-after-close-buffered    FetchMessage / ReadMessage after Close returned deliver the
+        messages (and error items) still buffered in r.msgs before they return io.EOF; in group
+        mode ReadMessage then fails in its CommitMessages (io.ErrClosedPipe) and the message is lost.
+     C09-no-leave-after-failed-rejoin  joinGroup returns "" as member id on every error, so after a
+        failed re-join the id handed out earlier is forgotten and Close sends no LeaveGroup for it.
+   ====================================================================================== *)
+From KV Require Import Model.Lifecycle Proofs.LifecycleBase Proofs.LifecycleSafe Proofs.LifecycleGen
+  Proofs.LifecyclePost Proofs.LifecycleCalls Proofs.LifecycleLive Proofs.LifecycleVariant.
+
+(* ---- C09_ctx: FetchMessage / ReadMessage (in the select on r.msgs, and in the two selects of the
+   commit that ReadMessage performs), CommitMessages (both selects) and a Transport round trip
+   (waiting for the pool to be ready, awaiting the promise): in EVERY state — reachable or not, no
+   other precondition — the context may end (LCtx c) and the step after it, the return of the call
+   with the context's error (LRetCtx c: result RCtx), is enabled. ---- *)
+Theorem C09_ctx : forall s c k, panicked s = false ->
+  nth_error (calls s) c = Some k -> blocked (k_ph k) = true -> k_ctx k = false ->
+  exists s1 s2, step s (LCtx c) = Some s1 /\ step s1 (LRetCtx c) = Some s2 /\
+    nth_error (calls s2) c = Some (mkCall (k_kind k) true (PDone RCtx)) /\
+    hist s2 = ERet c RCtx :: ECtx c :: hist s.
+Proof. exact ctx_proof. Qed.
+Print Assumptions C09_ctx.
+
+Theorem C09_ctx_already_ended : forall s c k, panicked s = false ->
+  nth_error (calls s) c = Some k -> blocked (k_ph k) = true -> k_ctx k = true ->
+  step s (LRetCtx c) = Some (ret c k RCtx s).
+Proof. exact ctx_already_proof. Qed.
+Print Assumptions C09_ctx_already_ended.
+
+(* ---- C09_r_after_close.  Full statement (property text: "after Close … FetchMessage/ReadMessage
+   return io.EOF", CommitMessages io.ErrClosedPipe): every call that BEGAN after a Close call had
+   returned gets io.EOF (fetch, read) / io.ErrClosedPipe (commit), or its context's error if that
+   context had already ended when the call began.  REFUTED in both clauses; what does hold is
+   C09_r_after_close_partial. ---- *)
+Definition C09_r_after_close_full_statement : Prop :=
+  forall c ls s, run step (init c) ls = Some s -> mon_after_close (hist s) = true.
+
+(* witness (partition mode): one batch of 2 messages reaches r.msgs, one is fetched, Close runs to
+   completion (the partition reader exits, r.msgs is closed), a new FetchMessage returns the
+   buffered message instead of io.EOF *)
+Theorem C09_r_after_close_fetch_refuted :
+  exists s, run step (init (cfg_p 4)) wit_fetch_buffered = Some s /\
+    close_returned s = true /\ map k_ph (calls s) = [PDone RMsg; PDone RMsg] /\
+    mon_late_fetch (hist s) = false /\ mon_after_close (hist s) = false.
+Proof. exact after_close_fetch_refuted_proof. Qed.
+Print Assumptions C09_r_after_close_fetch_refuted.
+
+(* witness (group mode): the member joins, Close runs to completion (run loop, ConsumerGroup,
+   heartbeat all gone: live s = 0, LeaveGroup sent), a new CommitMessages takes the
+   r.commits <- creq branch; synchronous commits: it then waits until its own context ends (RCtx
+   — nobody reads r.commits any more); CommitInterval > 0: it returns nil *)
+Theorem C09_r_after_close_commit_refuted :
+  (exists s, run step (init (cfg_g true 4)) wit_commit_enqueued = Some s /\
+     close_returned s = true /\ map k_ph (calls s) = [PDone RCtx] /\ commits s = [0] /\
+     live s = 0 /\ mon_late_commit (hist s) = false /\ mon_after_close (hist s) = false) /\
+  (exists s, run step (init (cfg_g false 4)) wit_commit_async = Some s /\
+     close_returned s = true /\ map k_ph (calls s) = [PDone RNil] /\ commits s = [0] /\
+     live s = 0 /\ mon_late_commit (hist s) = false).
+Proof. exact after_close_commit_refuted_proof. Qed.
+Print Assumptions C09_r_after_close_commit_refuted.
+
+(* what holds after a Close call returned, in every run: the Reader is marked closed, r.stctx is
+   cancelled, every partition reader has exited (nothing is ever added to r.msgs again: its length
+   never grows), r.runError can no longer fire; a FetchMessage in its select returns io.EOF as soon
+   as the queue is empty and closed; for a CommitMessages in its first select the io.ErrClosedPipe
+   branch is ready — the only alternative is the enqueue, impossible when r.commits is full.
+   Missing for the full statement: see the two refutations. *)
+Theorem C09_r_after_close_partial : forall c ls s, run step (init c) ls = Some s -> close_returned s = true ->
+  closed s = true /\ stctx s = true /\ all_exited s = true /\
+  (forall l s', step s l = Some s' -> length (msgs s') <= length (msgs s)) /\
+  (forall i, step s (LFRunErr i) = None) /\
+  (forall i k v, nth_error (calls s) i = Some k -> k_ph k = PFSelect v -> msgs s = [] -> mclosed s = true ->
+     step s (LFEof i) = Some (ret i k REOF s)) /\
+  (forall i k, nth_error (calls s) i = Some k -> k_ph k = PCSelect ->
+     step s (LCClosed i) = Some (ret i k RClosedPipe s) /\ (croom s = false -> step s (LCEnq i) = None)).
+Proof. exact after_close_partial_proof. Qed.
+Print Assumptions C09_r_after_close_partial.
+
+(* ---- C09_r_close_no_stuck: in every reachable state in which a Close call waits (r.join.Wait()
+   or <-r.done) some goroutine has an enabled PROGRESS step: the Close call itself, a partition
+   reader (its context is cancelled), Reader.run, ConsumerGroup.run, or a function of the
+   generation being closed. ---- *)
+Theorem C09_r_close_no_stuck : forall c ls s, run step (init c) ls = Some s -> close_waits s = true ->
+  exists l, progress s l = true /\ step s l <> None.
+Proof. exact close_no_stuck_proof. Qed.
+Print Assumptions C09_r_close_no_stuck.
+
+(* Close's first three statements (mark closed, r.cancel(), r.stop()) are always enabled, and from
+   r.join.Wait() on the state is [stopping] *)
+Theorem C09_r_close_begins : forall c ls s, run step (init c) ls = Some s ->
+  (forall k p, nth_error (closers s) k = Some p -> crank p <= 2 ->
+     progress s (LCloseStep k) = true /\ step s (LCloseStep k) <> None) /\
+  (cl_at 3 s -> stopping s = true).
+Proof. exact close_begins_proof. Qed.
+Print Assumptions C09_r_close_begins.
+
+(* ---- C09_r_close_variant.  Full statement of the design: a measure that strictly decreases on
+   EVERY non-environment step after Close started.  That is false for this code: a heartbeat tick
+   answered OK leaves the control state unchanged for as long as the generation lives, and a
+   select may keep taking a ready non-cancellation branch (cg.Next handing out generation after
+   generation although r.stctx is cancelled).  Proved instead, for EVERY state (reachable or not)
+   in which r.stop() has been executed: every PROGRESS step strictly decreases the measure [mu]
+   (Proofs/LifecycleVariant.v: weighted sum of the remaining control points of every Close call,
+   partition reader, caller, Reader.run, ConsumerGroup.run, generation function, readLag goroutine,
+   plus 2 per queued message and 9 per queued commit request), and [stopping] is stable.  With
+   C09_r_close_no_stuck / C09_r_close_begins: in every run in which progress steps are taken
+   whenever enabled (weak fairness), ticks are finite per unit of time (they are clock driven)
+   and a select with a ready cancellation branch eventually takes it (Go chooses uniformly at
+   random), every Close call returns.  Wall-clock bounds are outside the model. ---- *)
+Definition C09_r_close_variant_full_statement : Prop :=
+  exists m : state -> nat, forall c ls s l s', run step (init c) ls = Some s -> closed s = true ->
+    is_env l = false -> step s l = Some s' -> m s' < m s.
+
+Theorem C09_r_close_variant_partial : forall s l s', stopping s = true -> step s l = Some s' ->
+  stopping s' = true /\ (progress s l = true -> mu s' < mu s).
+Proof. exact variant_partial_proof. Qed.
+Print Assumptions C09_r_close_variant_partial.
+
+(* ---- C09_r_close_post.  After a Close call has returned (the event EClosed is in the history):
+   (1) silence: no Heartbeat, OffsetCommit, Fetch, JoinGroup or SyncGroup request reaches a broker
+       any more (mon_silent judges every request event against its past); ---- *)
+Theorem C09_r_close_post_silent : forall c ls s, run step (init c) ls = Some s -> mon_silent (hist s) = true.
+Proof. exact silent_holds. Qed.
+Print Assumptions C09_r_close_post_silent.
+
+(* (2) leave: at every Close return the membership the coordinator knows of has been the subject
+       of a LeaveGroup attempt (request sent, or the coordinator could not be reached for it) —
+       where, as in C15, a later JoinGroup REQUEST of this member counts as giving the id up … *)
+Theorem C09_r_close_post_leave : forall c ls s, run step (init c) ls = Some s -> mon_leave (hist s) = true.
+Proof. exact leave_holds. Qed.
+Print Assumptions C09_r_close_post_leave.
+
+(*     … which is exactly where the code falls short of "leaves the group it had joined": after a
+       failed re-join (any error but the id is kept by the coordinator, e.g. codes 15/16) Close
+       sends no LeaveGroup for the member id handed out before.  Strict statement refuted: *)
+Definition C09_r_close_post_leave_full_statement : Prop :=
+  forall c ls s, run step (init c) ls = Some s -> mon_leave_strict (hist s) = true.
+Theorem C09_r_close_post_leave_strict_refuted :
+  exists s, run step (init (cfg_g true 4)) wit_no_leave = Some s /\ close_returned s = true /\
+    live s = 0 /\ mon_leave (hist s) = true /\ mon_leave_strict (hist s) = false /\
+    In (EJoined 1) (hist s) /\ ~ In (EReq ALeave 1) (hist s).
+Proof. exact leave_strict_refuted_proof. Qed.
+Print Assumptions C09_r_close_post_leave_strict_refuted.
+
+(* (3) registry: every goroutine Close accounts for (partition readers, Reader.run,
+       ConsumerGroup.run, every ACCOUNTED generation function: heartbeat, commitLoop, unsubscribe
+       waiter) has ended and every connection they held is closed.  What may still run are
+       functions Generation.Start launched on an already closed generation (unaccounted by the
+       code) and the readLag goroutines (never joined by Close); without ReadLagInterval only the
+       former. *)
+Theorem C09_r_close_post_registry : forall c ls s, run step (init c) ls = Some s -> close_returned s = true ->
+  live_acc s = 0 /\
+  live s = unacc_live s + lag_live (lag s) + count (fun i => negb (idone i)) (inners s) /\
+  conns s = count iconn (inners s) /\
+  (c_lag c = false -> live s = unacc_live s /\ conns s = 0).
+Proof. exact close_post_registry. Qed.
+Print Assumptions C09_r_close_post_registry.
+
+(*     and those stragglers are finite (C09_r_close_variant_partial) and leave nothing behind:
+       when no goroutine has a step of its own left, the live-goroutine set and the
+       open-connection set are empty *)
+Theorem C09_r_close_post_quiescent : forall c ls s, run step (init c) ls = Some s -> close_returned s = true ->
+  (forall l, is_env l = false -> step s l = None) -> live s = 0 /\ conns s = 0.
+Proof. exact close_post_quiescent_proof. Qed.
+Print Assumptions C09_r_close_post_quiescent.
+
+(* (4) r.msgs is closed at most once in every run (any number of concurrent Close calls), closing
+       it never panics, and exactly once when every Close call has returned *)
+Theorem C09_r_close_post_msgs_once : forall c ls s, run step (init c) ls = Some s ->
+  panicked s = false /\ msgs_closes (hist s) <= 1 /\
+  (mclosed s = true <-> msgs_closes (hist s) = 1) /\
+  (close_returned s = true -> (forall k p, nth_error (closers s) k = Some p -> p = CLRet) -> msgs_closes (hist s) = 1).
+Proof. exact close_post_msgs. Qed.
+Print Assumptions C09_r_close_post_msgs_once.
+
+(* ---- non-vacuity: group Reader, synchronous commits, ReadLag off: join, generation handed to
+   Reader.run, one partition reader with a batch of 2, ReadMessage (fetch + commit acknowledged),
+   a FetchMessage blocked on the empty queue, a heartbeat, TWO concurrent Close calls; the blocked
+   call gets io.EOF, LeaveGroup is sent, everything is gone, a late FetchMessage gets io.EOF. ---- *)
+Definition exr_run : list label :=
+  join_ok ++ [LRNextCall; LRNextGen; LRSub 1; LRStartC; LRStartU;
+   LFDial 0 DOk; LFOffsets 0 DOk; LFFetch 0; LFResp 0 (FData 1); LFPush 0; LFBatchEnd 0 false;
+   LCall KRead; LFLock 0; LFRecv 0; LCEnq 0; LClTake 1; LClCommit 1 true; LCReply 0;
+   LCall KFetch; LFLock 1; LHbTick 0 true;
+   LCloseCall; LCloseCall; LCloseStep 0; LCloseStep 1; LCloseStep 0; LCloseStep 0; LCloseStep 1; LCloseStep 1;
+   LFSeeCancel 0; LCloseStep 0; LCloseStep 1;
+   LRNextCall; LRNextCtx; LRCgClose; LGWaitClosed; LGClose;
+   LFnSeeDone 0; LFnHandler 0; LFnSeeDone 1; LFnHandler 1; LFnSeeDone 2; LUnCancel 2; LUnJoin 2; LFnHandler 2;
+   LGJoined; LGLeaveCoord true; LGLeaveReq; LRCgWait; LRDone;
+   LCloseStep 1; LCloseStep 1; LCloseStep 0; LCloseStep 0; LFEof 1;
+   LCall KFetch; LFLock 2; LFEof 2].
+Example C09_r_nonvacuous :
+  option_map (fun s => (map k_ph (calls s), closers s, live s, conns s, msgs_closes (hist s),
+                        C09R_holds (hist s), mon_leave_strict (hist s),
+                        existsb (fun e => match e with EReq ALeave 1 => true | _ => false end) (hist s),
+                        existsb (fun e => match e with EReq AHb 1 => true | _ => false end) (hist s),
+                        existsb (fun e => match e with EReq ACommit 1 => true | _ => false end) (hist s)))
+             (run step (init (cfg_g true 4)) exr_run)
+  = Some ([PDone RMsg; PDone REOF; PDone REOF], [CLRet; CLRet], 0, 0, 1, true, true, true, true, true).
+Proof. vm_compute. reflexivity. Qed.
